@@ -348,6 +348,10 @@ def synth_corpus(repo):
         except (OSError, KeyError, zipfile.BadZipFile):
             pass
     out["c06_no_meta_synthetic.odt"] = with_part(odt_with_styles(NAME_POOL[:4]), "meta.xml", None)
+    # degenerate plain texts (fallback branches: nothing to detect an encoding from)
+    out["c06_blank.txt"] = b"  \n\n \t\n"
+    out["c06_short.txt"] = b"hi\n"
+    out["c06_paragraphs.txt"] = b"first paragraph, long enough to take a while\n" * 40 + b"\n\nsecond\n\nthird paragraph\n" + b"x" * 3000 + b"\n\nlast\n"
     # member names that differ only in case, referenced with yet another spelling (case-insensitive producers / file systems)
     try:
         raw = open(os.path.join(res, "modern_ms/pptx_formula_image.pptx"), "rb").read()
